@@ -12,16 +12,16 @@ CHECKS = {
  "C02": ("Theorem zmake_spec/zmake_kind_iff: for EVERY zone value satisfying the boolean certificate wfz (the property's own side condition) and EVERY civil second, the MakeTime case analysis returns UNIQUE/SKIPPED/REPEATED exactly when one/no/two instants display it, with pre/trans/post as stated (induction over unbounded transition lists, integer level); make_refines and c02_future_lookup carry it to the int64 implementation inside and beyond the table (400-year shift, saturating re-dating). Correspondence of implementation vs model vs independent preimage-counting spec on all probe civil seconds.",
          "proof (list induction, lia) + differential correspondence", "6 C02"),
  "C03": ("Theorems zroundtrip/zdisplays_back/zbreak_spec for every wfz zone and every instant; composed correspondence lookup(t)->lookup(cs) on the implementation.", "proof + differential correspondence", "6 C03"),
- "C04": ("Theorem n_sec_refines: for ALL int64^6 arguments within exactly the property's representability bound the transcription of n_sec..n_day returns OK of the unique valid calendar date-time (no overflow, loops terminate within stated fuel); calendar bijection, successor characterisation, alignment lemmas. Correspondence incl. the exhaustive 146097-day base (thorough) under UBSan.", "proof (refinement to a calendar spec) + differential correspondence", "6 C04"),
- "C05": ("Theorems plus/minus/difference_refines for all six alignments, all valid a,b, all int64 n with representable result (incl. n = INT64_MIN, extreme years), ord inverse laws, order agreement. Correspondence under UBSan against the Z-ordinal spec.", "proof + differential correspondence", "6 C05"),
+ "C04": ("Theorem n_sec_refines: for ALL int64^6 arguments within exactly the property's representability bound the transcription of n_sec..n_day returns OK of the unique valid calendar date-time (no overflow, loops terminate within stated fuel); calendar bijection, successor characterisation, alignment lemmas; src64_construct_meets_spec: the SOURCE-DERIVED checked functions (Source64.v, regenerated from clang's AST of the header on every run) meet the same spec. Correspondence incl. the exhaustive 146097-day base (thorough) under UBSan.", "proof (refinement to a calendar spec) + differential correspondence", "6 C04"),
+ "C05": ("Theorems plus/minus/difference_refines for all six alignments, all valid a,b, all int64 n with representable result (incl. n = INT64_MIN, extreme years), ord inverse laws, order agreement; src64_plus/difference_meets_spec for the source-derived functions. Correspondence under UBSan against the Z-ordinal spec.", "proof + differential correspondence", "6 C05"),
  "C06": ("Theorem zconvert_mono for ALL pairs L1 < L2 in every wfz zone (not neighbours), plus monotone clamping; implementation checked on sorted probe sequences and against the spec.", "proof + differential correspondence", "6 C06"),
  "C10": ("Totality/saturation: UBSan+ASan correspondence at the outermost 2 days/2 minutes of both ranges, +-2^59, +-2^31, 400-year multiples, in every zone incl. fixed +-24h; theorems: searches never violate upper_bound's precondition on any sorted table (searches_meet_precondition), clamped conversion monotone. The full no-overflow theorem for accepted zones is in progress (see DESIGN).", "proof (partial) + sanitizer-instrumented correspondence", "6 C10"),
  "C11": ("Theorems znext_spec/zprev_spec/zlookup_const_between/zlookup_differs_across/znext_chain over every increasing transition list and every type-equivalence; chains and point queries on the implementation vs model vs spec change points.", "proof + differential correspondence", "6 C11"),
- "C12": ("Arbitrary bytes: mutated/handcrafted/random files through a replaced zone_info_source_factory under ASan+UBSan; accept/reject and a query panel compared with the model, whose checked-int64 semantics turns any overflow/unpartitioned search/uninitialised read into an error value even where no sanitizer fires. Theorems: posix_determined (no uninitialised footer field), searches_meet_precondition. Memory safety of the compiled C++ is observed, not proved.", "proof (partial) + sanitizer-instrumented correspondence", "6 C12"),
+ "C12": ("Arbitrary bytes: mutated/handcrafted/random files through a replaced zone_info_source_factory under ASan+UBSan; accept/reject and a query panel compared with the model, whose checked-int64 semantics turns any overflow/unpartitioned search/uninitialised read into an error value even where no sanitizer fires. Theorems: load_total (every byte list: accept or reject, never an undefined operation), load_establishes_certificate (acceptance implies every structural clause of the zone certificate), posix_determined, searches_meet_precondition. Memory safety of the compiled C++ is observed, not proved.", "proof (partial) + sanitizer-instrumented correspondence", "6 C12"),
  "C14": ("Theorems hint_irrelevant_break/make for ALL hint values, history_independent for ALL operation sequences from ALL hidden states, on every table sorted both ways; implementation: every reachable hint state primed then probed, compared with a pristine copy under a fresh cache key; reload/failed-name cache contract with a counting factory.", "proof + differential correspondence", "6 C14"),
  "C15": ("fixed_exhaustive: all 180,001 offsets enumerated inside the kernel; fromname_iff_spec / fromname_only_if over ALL byte strings. Implementation exhausted on the same domain plus name mutants.", "proof (finite domain exhausted in-kernel + all strings) + exhaustive correspondence", "6 C15"),
  "C16": ("posix_iff: for every NUL-free byte string the parser transcription equals the independently written grammar; posix_cstr; posix_determined. Correspondence calls ParsePosixSpec twice with different pre-fill patterns to observe unwritten fields.", "proof + differential correspondence", "6 C16"),
- "C17": ("weekday_spec/yearday_spec/next/prev_weekday_spec for every valid date with any year (sweeps over the 400-year cycle lifted by periodicity); exhaustive 146097-day correspondence in thorough.", "proof + (exhaustive in thorough) correspondence", "6 C17"),
+ "C17": ("weekday_spec/yearday_spec/next/prev_weekday_spec for every valid date with any year (sweeps over the 400-year cycle lifted by periodicity), also for the source-derived get_weekday/get_yearday (Source64.v); exhaustive 146097-day correspondence in thorough.", "proof + (exhaustive in thorough) correspondence", "6 C17"),
 }
 CHECKS.update({
  "C13": ("Theorems over ALL schedules (induction over the event list of a small-step model of LoadTimeZone's critical sections): one_identity_per_name, schedule_independent, cache_monotone. Correspondence: every interleaving of Start/Release for k<=3 (quick) / k<=4 (thorough) threads over valid/invalid/fixed/UTC names executed on the real library through a parking factory and compared with the model; ThreadSanitizer stress with 4/16/64 free-running threads mixing loads, lookups, transitions, format and parse. Data-race freedom under the C++ memory model is observed (TSan), not proved.", "proof (partial: DRF observed) + exhaustive schedule correspondence + TSan", "6 C13"),
